@@ -38,3 +38,60 @@ def forced(c, base, scen, tag='f'):
         res.append(dict(ra=ra, rb=rb, reached='reached=1' in r, blocked='b_blocked=1' in r, raw=r,
                         after=[strip_now(x) for x in out[ci + 1:ci + 1 + na]], lines=rep))
     return res
+
+
+ES_POINTS = ['es_store:start', 'es_store:padded', 'es_store:grow', 'es_store:grow_setlen', 'es_store:grow_resized', 'es_store:half_copied', 'es_store:appended']
+
+
+def growth_step_races(c, base, nrep=None, tag='g'):
+    """a store that must grow the map file (an ephemeral, a regular and a replaceable event, several chunks long) is paused at every
+    point of the append / growth path (remembered length read, set_len, resize, copy) while another thread stores four events of
+    about a chunk each; then one more store.  Every event whose store returned an offset reads back whole by id, before and after
+    that further store (oracle: the property texts of C04 / C14 / C15: stored bytes read back identical; a store that returned Ok is
+    reflected; references stay unchanged) - shared by the three checks."""
+    from .storecheck import HistGen, encode_event
+    from .absstore import Abs
+    from .gen import ev_tok, AUTHORS
+    from .common import hx
+    rng = c.rng
+    Q = c.tier == 'quick'
+    if nrep is None:
+        nrep = 2 if Q else 20
+    scen = []
+    for k in range(nrep):
+        g = HistGen(rng, 'C04')
+        ab = Abs([])
+        x = g.new_event(kind=1, pk=AUTHORS[0], content=b'x' * rng.choice([5, 300]))
+        ab.store(x)
+        for akind in (20001, 1, 10002):
+            big = g.new_event(kind=akind, pk=AUTHORS[1], t=700, tags=[], content=b'B' * rng.choice([3000, 5000]))
+            bs = [g.new_event(kind=1, pk=AUTHORS[2], content=bytes([0x61 + i]) * rng.choice([1400, 1700, 2300])) for i in range(4)]
+            last = g.new_event(kind=1, pk=AUTHORS[0], content=b'l' * 900)
+            after = ['GID ' + hx(e['id']) for e in [x] + bs] + ['STO ' + ev_tok(last)] + ['GID ' + hx(e['id']) for e in [x] + bs + [last]]
+            for p in ES_POINTS:
+                scen.append(dict(pre=['STO ' + ev_tok(x)], point=p, a='STO ' + ev_tok(big), b='SEQ ' + ' ;; '.join('STO ' + ev_tok(e) for e in bs),
+                                 after=after, evs=[x] + bs, last=last, akind=akind))
+    for s_, r in zip(scen, forced(c, base, scen, tag='g')):
+        if 'error' in r or 'HUNG' in r.get('raw', '') or 'panic' in r.get('raw', ''):
+            c.violation('oracle', 'forced schedule (growth) did not complete: %s' % (r.get('error') or r['raw'])[:90], r['lines'])
+            continue
+        c.count('growth_race:%d:%s:%s' % (s_['akind'], s_['point'], 'reached' if r['reached'] else 'not-reached'))
+        n = len(s_['evs'])
+        first, lastr, second = r['after'][:n], r['after'][n], r['after'][n + 1:]
+        brep = r['rb'].split(' ;; ') if ' ;; ' in r['rb'] else [r['rb']]
+        bad = None
+        for i, e in enumerate(s_['evs']):
+            stored = True if i == 0 else (i - 1 < len(brep) and brep[i - 1].strip().startswith('ok'))
+            if not stored:
+                continue
+            want = 'some ' + encode_event(e).hex()
+            if first[i] != want or second[i] != want:
+                bad = 'event %s, stored successfully, does not read back whole after another thread\'s store went through the growth step (paused at %s): %s' % (
+                    hx(e['id'])[:8], s_['point'], (first[i] if first[i] != want else second[i])[:30])
+                break
+        if bad is None and lastr.startswith('ok') and second[n] != 'some ' + encode_event(s_['last']).hex():
+            bad = 'an event stored after the race does not read back whole'
+        if bad:
+            c.violation('oracle', bad, r['lines'])
+            continue
+        c.nontriv(('growth', s_['akind'], s_['point'], k))
